@@ -4,7 +4,7 @@ from engine import run_sim_check
 import schedcheck
 from sockcases import *
 
-THEOREMS = ["sendto_all_or_nothing", "sendto_failure_reported", "recvfrom_faithful"]
+THEOREMS = ["sendto_all_or_nothing", "sendto_failure_reported", "recvfrom_faithful", "driver_sendto_pops_and_resolves"]
 
 
 def generate(rnd, tier):
